@@ -92,6 +92,10 @@ def euler_records(rnd, tier):
                 model.initdisc(fd.uniform(n, length=1.0))
             for name in model.list_var():
                 with np.errstate(all="ignore"):
+                    try:        # history: the same variable of the same model was asked for another state just before
+                        model.nameddata(name, [np.array(x, dtype=float) * 1.9 for x in q])
+                    except Exception:
+                        pass
                     val = np.asarray(fld.phydata(name) if fld is not None else model.nameddata(name, q), dtype=float)
                 want = definition(name, gam, rho, uu, p, section=float(sec(noz_mesh.centers()[0])) if which == "nozzle" else 1.0,
                                   twod=(which == "euler2d"))
